@@ -22,8 +22,17 @@ type c09Case struct {
 	What     string   `json:"what"`     // description of the transformation(s)
 }
 
+// c09Kinds: the variant is read through a rotating source kind (the ones that
+// behave differently at the end of the input included).
+var c09Kinds = []string{"", "lenient", "garbage", "bufio.Reader", ""}
+
 func sepSkel(src string) (string, []string, error) {
-	cmds, comments, err := parser.ParseCommands(nil, "c09", src)
+	return sepSkelKind(src, "")
+}
+
+func sepSkelKind(src, kind string) (string, []string, error) {
+	source, _ := mkSource(kind, src)
+	cmds, comments, err := parser.ParseCommands(nil, "c09", source)
 	if err != nil {
 		return "", nil, err
 	}
@@ -43,7 +52,7 @@ func checkC09(c c09Case) error {
 		c09Cache.base, c09Cache.want = c.Base, want
 	}
 	want := c09Cache.want
-	got, comments, err := sepSkel(c.Variant)
+	got, comments, err := sepSkelKind(c.Variant, c09Kinds[(len(c.Variant)+len(c.What))%len(c09Kinds)])
 	if err != nil {
 		return fmt.Errorf("%s: the transformed program is rejected: %v\nbase:    %q\nvariant: %q", c.What, err, c.Base, c.Variant)
 	}
